@@ -391,6 +391,10 @@ class DerStream(runner.Stream):
             # hands out one octet per `read` call
             return ("the answer depends on how the std::io::Read source / Write sink chunks the octets (slice, one octet per call, "
                     "one octet per call with ErrorKind::Interrupted in between; Vec, one-octet-per-call sink): " + ans[:200])
+        if ans.startswith("bounds-differs"):
+            # harness/src/der.rs runs every INTEGER request under four constraint types with the same tag
+            return ("the DER octets / the value read depend on the PER-visible bounds of the INTEGER type "
+                    "(X.690 8.3 knows no constraints): " + ans[:240])
         a = ans.split(" ")
         if op == "ginfo":
             (k, n), count = GENERATED[t[2]]
@@ -552,6 +556,7 @@ class Spec(runner.Spec):
     assumptions = [
         "dev profile (overflow checks, debug assertions); the release profile is not modelled",
         "the model's source is a byte list: a read either delivers all requested bytes or fails with UnexpectedEof; the harness reads every input three times — from an in-memory slice (`&[u8]`), from a `std::io::Read` source that hands out one octet per call, and from one that also reports ErrorKind::Interrupted before every octet — and writes twice — to a `Vec<u8>` and to a sink that takes one octet per call; `chunked-differs` when the answers / octets differ",
+        "every INTEGER round trip and hostile read is run under four constraint types with the same tag and different PER-visible bounds (none, -1000..1000, i64::MIN..i64::MAX extensible, 0..255): BER/DER contents do not depend on them (`bounds-differs` otherwise)",
         "Rust semantics of the mirrored functions is tied to the Lean mirror only by differential execution (stream `der`)",
         "an enumeration's `from_choice_index(i)` is `Some` exactly for `i < VARIANT_COUNT` and `to_choice_index` is its inverse (what the generator emits; checked for three generated enumerations)",
         "tag numbers >= 64 are outside the property (the writer ORs `number as u8` into the identifier octet); theorems state the exact domain `number < 64`",
